@@ -753,7 +753,10 @@ class HippoClient(BaseClientSessionManager):
             if self.session is None:
                 break
             for region in self.session.regions:
-                if not region.circuit.is_alive:
+                # Not gated on `is_alive`: a circuit that is still connecting has its reliable
+                # UseCircuitCode in flight, which needs resends (and a failure when they run out) too.
+                # A disconnected circuit had its unacked table cleared, so this is a no-op for it.
+                if not region.circuit:
                     continue
                 region.circuit.resend_unacked()
             await asyncio.sleep(0.5)
